@@ -916,6 +916,14 @@ func (e *Env) call(x *ECall) TV {
 		case "bytesof": // bytesof(s): the bytes of string s as an abstract byte string
 			v := e.eval(x.Args[0])
 			return TV{T: fmt.Sprintf("(s2c %s)", v.T), Ty: bytesT}
+		case "loc0": // loc0(name): the FIRST value the caller's local variable of that name was bound to
+			nm := typeText(x.Args[0])
+			if e.local != nil {
+				if tv, ok := e.local("0:" + nm); ok {
+					return tv
+				}
+			}
+			e.fail("no local variable %s here", nm)
 		case "loc": // loc(name): the caller's local variable of that name (at call-site assertions, where callee parameter names shadow)
 			nm := typeText(x.Args[0])
 			if e.local != nil {
